@@ -22,7 +22,7 @@ pub fn def() -> CheckDef {
         },
         gen,
         run,
-        rule: "seeded histories (<= 25 ops: structure, whole-stream writes, handle scripts, metadata; the first cases of a run grow a V3 file past 109 FAT sectors in ~1 MB steps); a process crash is injected at EVERY boundary between two API calls (snapshot of the image without flush), the snapshot is opened in permissive and strict mode and dumped, and compared with the model (streams with unflushed handle data: everything but their content). At one drawn boundary per history the run forks: the rest of the history is executed on the live object and on the reopened snapshot, both against the model. Non-trivial: >= 1 successful mutation and >= 1 crash-point check; distinct = distinct (seam log, final image) hash.",
+        rule: "seeded histories (<= 25 ops: structure, whole-stream writes, handle scripts, metadata; the first cases of a run grow a V3 file past 109 FAT sectors in ~1 MB steps; every eighth history starts from a file laid out by the independent writer); a process crash is injected at EVERY boundary between two API calls (snapshot of the image without flush), the snapshot is opened in permissive and strict mode and dumped, and compared with the model (streams with unflushed handle data: everything but their content). At one drawn boundary per history the run forks: the rest of the history is executed on the live object and on the reopened snapshot, both against the model. Non-trivial: >= 1 successful mutation and >= 1 crash-point check; distinct = distinct (seam log, final image) hash.",
         assumptions: &["crash = process crash / into_inner: bytes that reached write() survive (no power-loss model: the property does not state one)", "reference model as in C01"],
         cpu_limit_s: 30,
         fault_kinds: "F-CR at every operation boundary (enumerated per history); fork + continue",
@@ -77,6 +77,45 @@ pub fn gen(seed: u64, idx: u64, tier: Tier) -> Case {
     let mut rng = Rng::for_case(seed, "C02", idx);
     if idx < (if tier == Tier::Quick { LARGE_QUICK } else { LARGE_THOROUGH }) {
         return large_case(&mut rng, idx);
+    }
+    if idx % 8 == 3 {
+        // start from a file laid out by the independent writer (real red-black trees, free
+        // sectors, scattered slots) and mutate it: write-through must hold for such files too
+        let version = if rng.chance(1, 2) { 3 } else { 4 };
+        let mut c = Case::new("C02", "foreign-start", version);
+        c.bufsize = *rng.pick(gen::BUFSIZES);
+        let mut plan = crate::imgwr::plan_from_seed(rng.next_u64(), version);
+        plan.v3_size_high_garbage = false;
+        plan.library_like_trees = rng.chance(1, 2);
+        let (max_entries, max_stream) = (rng.range(3, 30) as usize, 9000usize);
+        let content_seed = rng.next_u64();
+        c.init = crate::case::Init::Foreign { content_seed, max_entries, max_stream, plan };
+        let mut crng = Rng::new(content_seed);
+        let mut content = crate::imgwr::gen_content(&mut crng, max_entries, max_stream);
+        content.root.meta.created = 0;
+        let model = crate::model::Model::from_dump(&content, version);
+        let mut pool: Vec<String> = model.all_paths().into_iter().filter_map(|(p, _)| p.last().cloned()).take(8).collect();
+        pool.extend(crate::names::gen_pool(&mut rng, crate::names::NameClass::Ascii, 4));
+        let cfg = gen::GenCfg {
+            max_ops: 20,
+            names: pool,
+            sizes: gen::draw_sizes(&mut rng, 9000, if version == 3 { 512 } else { 4096 }),
+            near_miss: 0,
+            spellings: 0,
+            case_variants: 0,
+            weights: vec![("remove_stream", 10), ("remove_storage", 5), ("remove_storage_all", 3), ("write_whole", 8), ("create_storage", 4), ("set_state_bits", 2), ("open_stream", 2), ("h_write_all", 2), ("h_set_len", 2), ("h_flush", 2), ("h_drop", 2)],
+            max_objects: 60,
+            max_depth: 6,
+            invalid_names: false,
+            protect_handles: true,
+            max_stream: 9000,
+            no_remove_with_open_handles: true,
+            set_len_shrink_only: false,
+        };
+        let n = rng.range(2, 20) as usize;
+        let mut g = gen::Gen::new(&mut rng, &cfg, model);
+        c.ops = g.history(n);
+        return c;
     }
     let k = Knobs { max_ops: 25, near_miss: &[0, 5], no_remove_with_open_handles: true, ..DEFAULT_KNOBS };
     let w = if rng.chance(1, 2) {
